@@ -24,7 +24,7 @@ ASSUMPTIONS = [
 COMPONENTS = dict(real='pytableaux.models (BaseModel, frames, access classes) and every logic\'s Model class', stub='none')
 
 def plan(tier):
-    return dict(runs=10000 if tier == 'quick' else 300000, timeout=300 if tier == 'quick' else 5400)
+    return dict(runs=10000 if tier == 'quick' else 300000, timeout=900 if tier == 'quick' else 5400)
 
 def make_spec(ctx):
     rng = ctx.rng('workload')
